@@ -250,8 +250,21 @@ def build():
                    ensures=[f"result == R_{acc}(self, {argl})"]))
         A(Contract(f"{CG}:{genfn}", params={"clz": "Cls", mapparam: "Seq[Fld]"}, trusted=True, props=P,
                    trusted_reason="its template paths are verified under layer 1 and its output text per class under layer 2"))
-        A(Contract(f"{CG}:gen_and_yield_{acc}", params={"self": "Ref", **ps}, returns="Seq[AnyPos]", props=P,
+        def sig_hook(m, acc=acc):
+            # the bootstrap serves the first call per class: it must offer exactly the declared signature (defaults included), or a call that omits a flag
+            # means something else before and after specialisation
+            from .codegen_generated import _sig
+            from pyvc import extract as _ex
+            _, declared = _ex.get_function(f"pyoak.node:ASTNode.{acc}")
+            return [("signature-is-the-declared-one", z3.BoolVal(_sig(m.fn) == _sig(declared)))]
+
+        A(Contract(f"{CG}:gen_and_yield_{acc}", params={"self": "Ref", **ps}, returns="Seq[AnyPos]", props=P, post_hook=sig_hook,
                    ensures=[f"result == R_{acc}(self, {argl})"],
                    call_requires={f"{CG}:{genfn}": ["arg_clz == cls_of(self)", f"arg_{mapparam} == {mapspec}(cls_of(self))"]},
                    note="bootstrap: generates the accessor for the node's own class, then yields from it with the same flags"))
+    # ---- the small static / derived accessors of the statement ---------------------------------------------------------
+    A(Contract("pyoak.node:ASTNode.children", params={"self": "Ref"}, returns="Seq[AnyPos]", props=P,
+               ensures=["result == R_get_child_nodes(self, False)"], note="property -- a list of exactly what get_child_nodes() yields, in declaration order"))
+    A(Contract("pyoak.node:ASTNode.get_child_fields", params={"cls": "Cls"}, returns="Seq[Fld]", props=P,
+               ensures=["result == cls_child_fields(cls)"], note="the class's child-field table (C11), as is"))
     return world, lib, reg, []
